@@ -346,13 +346,15 @@ type c18Obs struct {
 	okT          c18T
 	erT          c18E
 	unmCalls     []c18UnmCall
-	builtBefore  bool     // a request middleware saw RawRequest already built in the first attempt
-	builtinFirst bool     // a user request middleware saw Request.URL already parsed in the first attempt
-	noBuiltin    bool     // a later stage ran although Request.URL was never parsed
-	nilRespSeen  bool     // a request-level response middleware was handed a nil *Response
-	foreign      []string // stages / settings of ANOTHER client (parent or copy) that took part in the call
-	runaway      bool     // an unbounded retry went on beyond the attempts the script describes
-	fileFail     bool     // SetOutputFile variant: some attempt was given a path that cannot be created
+	builtBefore  bool          // a request middleware saw RawRequest already built in the first attempt
+	builtinFirst bool          // a user request middleware saw Request.URL already parsed in the first attempt
+	noBuiltin    bool          // a later stage ran although Request.URL was never parsed
+	nilRespSeen  bool          // a request-level response middleware was handed a nil *Response
+	foreign      []string      // stages / settings of ANOTHER client (parent or copy) that took part in the call
+	outW         *c18OutWriter // SetOutput variant: what was written
+	outFile      string        // SetOutputFile variant: the path of the last attempt
+	runaway      bool          // an unbounded retry went on beyond the attempts the script describes
+	fileFail     bool          // SetOutputFile variant: some attempt was given a path that cannot be created
 }
 
 // c18OutDir is where the SetOutputFile variant writes (set by the lane to t.TempDir()).
@@ -686,7 +688,9 @@ func c18Run(sc *c18Scenario) *c18Obs {
 					os.WriteFile(blocker, []byte("x"), 0o600)
 					r.SetOutputFile(filepath.Join(blocker, "sub", "x.out")) // parent is a regular file: cannot be created
 				} else {
-					r.SetOutputFile(filepath.Join(dir, "c18-"+strconv.Itoa(sc.verb)+".out"))
+					o.outFile = filepath.Join(dir, "c18-"+strconv.Itoa(sc.verb)+".out")
+					os.Remove(o.outFile)
+					r.SetOutputFile(o.outFile)
 				}
 			}
 			if c18At(sc.builtin, att(), false) {
@@ -855,7 +859,8 @@ func c18Run(sc *c18Scenario) *c18Obs {
 		})
 	}
 	if sc.save && sc.verb%2 == 0 {
-		req.SetOutput(&c18OutWriter{fail: func() bool { return c18At(sc.outFails, att(), false) }, onFail: func() { raise("output") }})
+		o.outW = &c18OutWriter{fail: func() bool { return c18At(sc.outFails, att(), false) }, onFail: func() { raise("output") }}
+		req.SetOutput(o.outW)
 	} else if sc.save {
 		req.SetOutputFile("c18-placeholder.out") // replaced per attempt by the hidden request middleware
 	}
@@ -1156,6 +1161,21 @@ func (o *c18Obs) oracle(sc *c18Scenario) string {
 			return "the cached body is not the body of the response the caller holds (final exchange)"
 		}
 	}
+	// SetOutput / SetOutputFile: what was saved last is the body of the final exchange
+	if sc.save && r.Err == nil && r.Response != nil && !c18Suppressing(sc) {
+		if f := o.facts[r.Header.Get("X-Tag")]; f != nil && f.body != "" && r.Request != nil && r.Request.Method != "HEAD" &&
+			f.status != 204 && f.status != 304 {
+			var saved []byte
+			if o.outW != nil {
+				saved = o.outW.buf
+			} else if o.outFile != "" {
+				saved, _ = os.ReadFile(o.outFile)
+			}
+			if !strings.HasSuffix(string(saved), f.body) && !strings.HasSuffix(string(saved), f.wire()) {
+				return c18VerdictDigestSave
+			}
+		}
+	}
 	res, es := r.SuccessResult() != nil, r.ErrorResult() != nil
 	if res && es {
 		return "both success result and error result populated"
@@ -1327,7 +1347,27 @@ func (o *c18Obs) orderOracle(sc *c18Scenario) string {
 // ---------------------------------------------------------------------------------------
 // known-defect classing: the model can be asked for the code as found, fix by fix
 
-var c18FixClasses = []string{"c10-afterresponse-overwrites-err", "c10-nil-resp-retry", "c18-digest-stale-binding"}
+var c18FixClasses = []string{"c10-afterresponse-overwrites-err", "c10-nil-resp-retry", "c18-digest-stale-binding", "c18-digest-download-challenge"}
+
+// c18Repaired is the code variant the model follows: every fix applied.
+const c18Repaired = "1111"
+
+// c18VerdictDigestSave is the oracle's verdict for the known finding c18-digest-download-challenge
+// (fixes/C18-3-digest-download.patch).
+const c18VerdictDigestSave = "the saved output does not end with the body of the final exchange"
+
+func c18ClassOpen(class string) bool {
+	for i, c := range c18FixClasses {
+		if c == class {
+			for _, v := range c18OpenVariants() {
+				if v[i] == '0' {
+					return true
+				}
+			}
+		}
+	}
+	return false
+}
 
 // c18OpenVariants lists the as-found code variants the lane may use to explain a difference:
 // a fix may be switched off only while known-findings.txt still carries the open: line of its
@@ -1342,7 +1382,7 @@ func c18OpenVariants() []string {
 	if err != nil {
 		return nil
 	}
-	open := [3]bool{}
+	open := [4]bool{}
 	for _, l := range strings.Split(string(b), "\n") {
 		l = strings.TrimSpace(l)
 		if !strings.HasPrefix(l, "open:") || !strings.Contains(l, "property=C18 ") {
@@ -1355,10 +1395,10 @@ func c18OpenVariants() []string {
 		}
 	}
 	var out []string
-	for zeros := 1; zeros <= 3; zeros++ {
-		for m := 0; m < 8; m++ {
+	for zeros := 1; zeros <= 4; zeros++ {
+		for m := 0; m < 16; m++ {
 			v, n, ok := "", 0, true
-			for i := 0; i < 3; i++ {
+			for i := 0; i < 4; i++ {
 				if m&(1<<i) != 0 {
 					v += "0"
 					n++
@@ -1382,7 +1422,7 @@ func c18OpenVariants() []string {
 func c18Classify(scs []*c18Scenario, impl []string) (model, variant, class []string, err error) {
 	lines := make([]string, len(scs))
 	for i, sc := range scs {
-		lines[i] = sc.line("111")
+		lines[i] = sc.line(c18Repaired)
 	}
 	model, err = verifh.RunModel(lines)
 	if err != nil {
@@ -1413,7 +1453,7 @@ func c18Classify(scs []*c18Scenario, impl []string) (model, variant, class []str
 		for j, v := range variants { // most-repaired variants first
 			if ans2[k*len(variants)+j] == impl[i] {
 				variant[i] = v
-				for b := 0; b < 3; b++ {
+				for b := 0; b < 4; b++ {
 					if v[b] == '0' {
 						class[i] = c18FixClasses[b]
 						break
@@ -1511,6 +1551,18 @@ func c18Finish(r *rand.Rand, sc *c18Scenario, pXform, pClone int) *c18Scenario {
 					}
 					c18Facts(h, sc.checker)
 				}
+				if sc.outFails[a] { // likewise the answer to a digest re-send of that attempt
+					for _, st := range sc.reqResp {
+						if a < len(st) && st[a].kind == "d" && st[a].re.h != nil {
+							h := st[a].re.h
+							h.readOK = true
+							if h.body == "" {
+								h.body = c18Bodies[0]
+							}
+							c18Facts(h, sc.checker)
+						}
+					}
+				}
 			}
 		}
 	}
@@ -1548,6 +1600,11 @@ func c18Finish(r *rand.Rand, sc *c18Scenario, pXform, pClone int) *c18Scenario {
 		// kinds of output apart, so the combination is not generated)
 		if f && a < len(sc.transport) && sc.transport[a].h != nil && strings.HasPrefix(sc.transport[a].h.xf, "n") {
 			sc.transport[a].h.xf = "b" + sc.transport[a].h.xf[1:]
+		}
+		for _, st := range sc.reqResp {
+			if f && a < len(st) && st[a].kind == "d" && st[a].re.h != nil && strings.HasPrefix(st[a].re.h.xf, "n") {
+				st[a].re.h.xf = "b" + st[a].re.h.xf[1:]
+			}
 		}
 	}
 	if r.Intn(pClone) == 0 {
@@ -1711,7 +1768,7 @@ func c18GenStale(r *rand.Rand) *c18Scenario {
 }
 
 func c18Human(sc *c18Scenario, impl string) string {
-	return sc.line("111")[8:] + " checker=" + sc.checker.name + fmt.Sprintf(" clonepath=%d/%d", sc.path, sc.split) + " => " + impl
+	return sc.line(c18Repaired)[8:] + " checker=" + sc.checker.name + fmt.Sprintf(" clonepath=%d/%d", sc.path, sc.split) + " => " + impl
 }
 
 // c18ModelBuckets: histogram buckets derived from the MODEL's answer (what the repaired code
@@ -1792,6 +1849,17 @@ func c18ModelBuckets(hist *c18Hist, sc *c18Scenario, ans string) {
 	}
 }
 
+// c18OddTag: the answer's final exchange is a digest re-send
+func c18OddTag(ans string) bool {
+	for _, kv := range strings.Fields(ans) {
+		if strings.HasPrefix(kv, "http=") {
+			n, err := strconv.Atoi(kv[5:])
+			return err == nil && n%2 == 1
+		}
+	}
+	return false
+}
+
 func c18RunLane(t *testing.T, s *verifh.Session, hist *c18Hist, scs []*c18Scenario) {
 	c18OutDir = t.TempDir()
 	impl := make([]string, len(scs))
@@ -1810,6 +1878,14 @@ func c18RunLane(t *testing.T, s *verifh.Session, hist *c18Hist, scs []*c18Scenar
 	if err != nil {
 		t.Fatalf("driver: %v -- treat as: no tests to run", err)
 	}
+	digestSaveOpen := c18ClassOpen("c18-digest-download-challenge")
+	for i := range scs {
+		// the known finding as the ORACLE sees it (the model does not carry the output's contents)
+		if class[i] == "" && verdict[i] == c18VerdictDigestSave && digestSaveOpen && impl[i] == model[i] &&
+			strings.Contains(impl[i], " http=") && c18OddTag(impl[i]) {
+			class[i], variant[i] = "c18-digest-download-challenge", c18Repaired
+		}
+	}
 	emit := func(i int, line, cls string, ok bool) {
 		sc := scs[i]
 		human := c18Human(sc, impl[i])
@@ -1824,7 +1900,7 @@ func c18RunLane(t *testing.T, s *verifh.Session, hist *c18Hist, scs []*c18Scenar
 		c18ModelBuckets(hist, scs[i], model[i])
 		if (impl[i] != model[i] || verdict[i] != "") && class[i] == "" {
 			hist.Count("unexplained")
-			emit(i, scs[i].line("111"), "", verdict[i] == "")
+			emit(i, scs[i].line(c18Repaired), "", verdict[i] == "")
 		}
 	}
 	// 2. a few representatives of each known defect, reported against the repaired model
@@ -1836,7 +1912,7 @@ func c18RunLane(t *testing.T, s *verifh.Session, hist *c18Hist, scs []*c18Scenar
 			if reps[class[i]] < 3 {
 				reps[class[i]]++
 				done[i] = true
-				emit(i, scs[i].line("111"), class[i], verdict[i] == "")
+				emit(i, scs[i].line(c18Repaired), class[i], verdict[i] == "")
 			}
 		}
 	}
@@ -1848,7 +1924,7 @@ func c18RunLane(t *testing.T, s *verifh.Session, hist *c18Hist, scs []*c18Scenar
 		case class[i] != "":
 			emit(i, scs[i].line(variant[i]), "", true)
 		default:
-			emit(i, scs[i].line("111"), "", true)
+			emit(i, scs[i].line(c18Repaired), "", true)
 		}
 	}
 }
